@@ -26,7 +26,7 @@ from pathlib import Path
 VERIF = Path(__file__).resolve().parent.parent
 REPO = Path(os.environ.get("DRX_REPO", "/repo"))
 LEAN = VERIF / "lean"
-DRIVER = LEAN / ".lake" / "build" / "bin" / "drxmodel"
+BIN = LEAN / ".lake" / "build" / "bin"
 ALLOWED_AXIOMS = {"propext", "Classical.choice", "Quot.sound"}
 FORBIDDEN = re.compile(r"\bsorry\b|\badmit\b|^axiom\s|native_decide|bv_decide|implemented_by|\bunsafe\s|maxHeartbeats\s+0\b", re.M)
 
@@ -124,11 +124,25 @@ def strip_lean_comments(s: str) -> str:
     return "".join(out)
 
 
-def forbidden_tokens():
-    hits = []
-    for p in LEAN.rglob("*.lean"):
-        if ".lake" in p.parts or ".audit" in p.parts:
+def import_closure(modules):
+    """local .lean files transitively imported by the given modules"""
+    seen, todo = {}, list(modules)
+    while todo:
+        m = todo.pop()
+        if m in seen:
             continue
+        p = LEAN / (m.replace(".", "/") + ".lean")
+        if not p.exists():
+            continue
+        seen[m] = p
+        for mm in re.findall(r"^import\s+(\S+)", p.read_text(), re.M):
+            todo.append(mm)
+    return list(seen.values())
+
+
+def forbidden_tokens(modules):
+    hits = []
+    for p in import_closure(modules):
         txt = strip_lean_comments(p.read_text())
         # string literals may legitimately contain the word (e.g. parser keyword tables); drop them
         txt = re.sub(r'"(?:[^"\\]|\\.)*"', '""', txt)
@@ -153,22 +167,56 @@ def audit_axioms(modules, names):
     return res, out
 
 
+def family_main(fam):
+    return "Main" + fam[0].upper() + fam[1:]
+
+
 class Driver:
-    def __init__(self):
-        self.ok = DRIVER.exists()
+    """routes each line `<family> <cmd> ...` to the compiled driver of that family (lean/.lake/build/bin/drx_<family>)"""
+    def __init__(self, families=()):
+        self.ok = True
+        self.disabled = set()
+
+    def _ask1(self, fam, lines):
+        exe = BIN / f"drx_{fam}"
+        if not self.ok or fam in self.disabled or not exe.exists():
+            return [None] * len(lines)
+        nproc = min(16, max(1, len(lines) // 200))
+        if nproc > 1:
+            # split across processes: the model side is embarrassingly parallel
+            k = (len(lines) + nproc - 1) // nproc
+            parts = [lines[i:i + k] for i in range(0, len(lines), k)]
+            procs = [subprocess.Popen([str(exe)], stdin=subprocess.PIPE, stdout=subprocess.PIPE, stderr=subprocess.DEVNULL, text=True) for _ in parts]
+            import threading
+            res = [None] * len(parts)
+            def work(i):
+                o, _ = procs[i].communicate("\n".join(parts[i]) + "\n")
+                res[i] = o
+            th = [threading.Thread(target=work, args=(i,)) for i in range(len(parts))]
+            [t.start() for t in th]; [t.join() for t in th]
+            out = []
+            for part, o in zip(parts, res):
+                ol = (o or "").split("\n")
+                if ol and ol[-1] == "":
+                    ol.pop()
+                out += ol + [None] * (len(part) - len(ol))
+            return out
+        p = subprocess.run([str(exe)], input="\n".join(lines) + "\n", stdout=subprocess.PIPE, stderr=subprocess.DEVNULL, text=True, timeout=3600)
+        out = p.stdout.split("\n")
+        if out and out[-1] == "":
+            out.pop()
+        return out + [None] * (len(lines) - len(out))   # driver crashed part-way (e.g. stack overflow): pad
 
     def ask(self, lines):
         if not lines:
             return []
-        if not self.ok:
-            return [None] * len(lines)
-        p = subprocess.run([str(DRIVER)], input="\n".join(lines) + "\n", stdout=subprocess.PIPE, stderr=subprocess.PIPE, text=True, timeout=3600)
-        out = p.stdout.split("\n")
-        if out and out[-1] == "":
-            out.pop()
-        if len(out) != len(lines):
-            # driver crashed part-way (e.g. stack overflow): pad
-            out = out + [None] * (len(lines) - len(out))
+        byfam = {}
+        for i, l in enumerate(lines):
+            byfam.setdefault(l.split(" ", 1)[0], []).append(i)
+        out = [None] * len(lines)
+        for fam, idxs in byfam.items():
+            for i, o in zip(idxs, self._ask1(fam, [lines[i] for i in idxs])):
+                out[i] = o
         return out
 
 
@@ -205,10 +253,14 @@ def run_impl(modname, cases, procs=None):
 # known findings
 
 def load_findings(prop):
-    p = VERIF / "known_findings.json"
-    if not p.exists():
-        return []
-    return [e for e in json.loads(p.read_text()) if e.get("property") == prop]
+    """known_findings.json is the committed list; entries may name several properties ("properties": [...])"""
+    out = []
+    for p in [VERIF / "known_findings.json"] + sorted((VERIF / "known_findings.d").glob("*.json")):
+        if p.exists():
+            for e in json.loads(p.read_text()):
+                if e.get("property") == prop or prop in e.get("properties", []):
+                    out.append(e)
+    return out
 
 
 # ----------------------------------------------------------------------------------------------
@@ -352,7 +404,8 @@ def main(modname, argv=None):
         names = []
         for m in mod.LEAN_MODULES:
             names += [n for n, _ in theorem_names(m)]
-        ok_drv, log_drv = (True, "") if args.no_build else lake_build(["drxmodel"])
+        drv_targets = ["drx_" + f for f in getattr(mod, "FAMILIES", [])]
+        ok_drv, log_drv = (True, "") if (args.no_build or not drv_targets) else lake_build(drv_targets)
         if not ok_drv:
             broken.append(("B", "model driver does not build: " + first_error(log_drv)))
         ok_thm, log_thm = (True, "") if args.no_build else lake_build(mod.LEAN_MODULES)
@@ -372,7 +425,7 @@ def main(modname, argv=None):
                 broken.append(("B", f"theorem {n} depends on disallowed axioms {ax[n]}"))
             elif ok_thm:
                 broken.append(("B", f"theorem {n} not found in compiled module"))
-        fb = forbidden_tokens()
+        fb = forbidden_tokens(list(mod.LEAN_MODULES) + [family_main(f) for f in getattr(mod, "FAMILIES", [])])
         if fb:
             broken.append(("B", "forbidden tokens in lean/: " + "; ".join(fb[:5])))
         ctx.cov.update(obligations=len(names), discharged=len(discharged), theorems=names,
@@ -480,7 +533,7 @@ def main(modname, argv=None):
     cov.update(
         evaluations=stats.get("evaluations", 0), distinct_nontrivial=stats.get("distinct_nontrivial", 0),
         rule=getattr(mod, "RULE", ""), samples=samples,
-        checker_cmd=f"cd lean && lake build {' '.join(mod.LEAN_MODULES)} drxmodel && lake env lean .audit/<audit>.lean (#print axioms)" + (" && lake env leanchecker " + " ".join(mod.LEAN_MODULES) if args.tier == "thorough" else ""),
+        checker_cmd=f"cd lean && lake build {' '.join(mod.LEAN_MODULES)} {' '.join('drx_' + f for f in getattr(mod, 'FAMILIES', []))} && lake env lean .audit/<audit>.lean (#print axioms)" + (" && lake env leanchecker " + " ".join(mod.LEAN_MODULES) if args.tier == "thorough" else ""),
         trusted_base=["Lean 4.33 kernel", "axioms: " + ", ".join(sorted(ALLOWED_AXIOMS)) + " (audited per theorem by #print axioms; no native_decide/bv_decide/sorry)"] + list(getattr(mod, "TRUSTED", [])),
         correspondence=dict(compared=stats.get("c_compared", 0), disagreements=len(c_fail), unexplained=len(c_real)),
         property_on_impl=dict(compared=stats.get("d_compared", 0) , failures=len(d_fail), unlisted=len(unlisted)),
